@@ -187,7 +187,8 @@ def run(tier, seed):
     _SEEDS[:] = deep + wide
     d, cap = DEPTH[tier], CAP[tier]
     dw = d - 1
-    tasks = [(i, d, cap) for i in range(len(deep))]
+    # long seeds (many terms) have the widest state graphs: one level less keeps them complete below the cap
+    tasks = [(i, d if len(deep[i]) <= 30 else d - 1, cap) for i in range(len(deep))]
     # long seeds first
     tasks.sort(key=lambda t: -len(_SEEDS[t[0]]))
     tasks += [(i, dw, cap) for i in range(len(deep), len(_SEEDS))]
@@ -197,7 +198,8 @@ def run(tier, seed):
         "transitions": acc.n["transitions"],
         "traces_validated_against_impl": acc.n["traces_replayed"],
         "exhaustive": acc.n["capped_seeds"] == 0,
-        "bound": {"depth_deep_seeds": d, "deep_seeds": len(deep), "depth_wide_seeds": dw, "wide_seeds": len(wide),
+        "bound": {"depth_deep_seeds": d, "deep_seeds": len(deep), "depth_of_deep_seeds_longer_than_30_chars": d - 1,
+                  "depth_wide_seeds": dw, "wide_seeds": len(wide),
                   "state_cap_per_seed": cap},
         "seeds_that_hit_the_state_cap": acc.n["capped_seeds"],
         "max_depth_reached": acc.n["max_depth"],
